@@ -105,7 +105,7 @@ theorem ptype_leafy (v : Val) (h : Val.Leafy cfg v) : inst cfg sfh (ptype cfg sf
   | .dflt, _ => unfold ptype; unfold inst; rfl
   | .bool b, _ => unfold ptype; unfold inst; simp
   | .int i, _ => unfold ptype; unfold inst; simp [Rng.contains]
-  | .float f, _ => unfold ptype; unfold inst; simp
+  | .float f, _ => unfold ptype; unfold inst; simp; exact ⟨Fl.effLo_le f, Fl.le_effHi f⟩
   | .str s, _ => unfold ptype; unfold inst; simp
   | .regexp s, _ => unfold ptype; unfold inst; simp
   | .binary s, _ => unfold ptype; unfold inst; rfl
@@ -331,7 +331,7 @@ theorem ptype_inst (hl : ∀ s, (cfg.lower s).length = s.length) (G TV : Ty → 
     | dflt => unfold ptype; exact ⟨by unfold inst; rfl, l2⟩
     | bool b => unfold ptype; exact ⟨by unfold inst; simp, l3 b⟩
     | int i => unfold ptype; exact ⟨by unfold inst; simp [Rng.contains], l4 i⟩
-    | float f => unfold ptype; exact ⟨by unfold inst; simp, l5 f⟩
+    | float f => unfold ptype; exact ⟨by unfold inst; simp; exact ⟨Fl.effLo_le f, Fl.le_effHi f⟩, l5 f⟩
     | str s => unfold ptype; exact ⟨by unfold inst; simp, l6 s⟩
     | regexp s => unfold ptype; exact ⟨by unfold inst; simp, l7 s⟩
     | binary s => unfold ptype; exact ⟨by unfold inst; rfl, l8⟩
